@@ -257,11 +257,11 @@ func SelfTest() error {
 	cases := []tc{
 		{"\x00", "", true},
 		{"\x03\x08\xff\xff\xff", "\xff\xff\xff", true},
-		{"\x02\x08\xff\xff\xff", "", false},     // literal longer than declared length
-		{"\x03\x08\xff\xff", "", false},         // literal longer than input
-		{"\x08\x0cabcd\x01\x04", "abcdabcd", true}, // copy1 len 4 off 4
-		{"\x0d\x0cabcd\x15\x04", "abcdabcdabcda", true}, // copy1 len 9 off 4 (overlapping)
-		{"\x06\x0cabcd\x06\x03\x00", "abcdbc", true},    // copy2 len 2 off 3
+		{"\x02\x08\xff\xff\xff", "", false},                  // literal longer than declared length
+		{"\x03\x08\xff\xff", "", false},                      // literal longer than input
+		{"\x08\x0cabcd\x01\x04", "abcdabcd", true},           // copy1 len 4 off 4
+		{"\x0d\x0cabcd\x15\x04", "abcdabcdabcda", true},      // copy1 len 9 off 4 (overlapping)
+		{"\x06\x0cabcd\x06\x03\x00", "abcdbc", true},         // copy2 len 2 off 3
 		{"\x06\x0cabcd\x07\x03\x00\x00\x00", "abcdbc", true}, // copy4 len 2 off 3
 		{"\x06\x0cabcd\x06\x00\x00", "", false},              // offset 0
 		{"\x06\x0cabcd\x06\x05\x00", "", false},              // offset beyond start
